@@ -169,8 +169,9 @@ Section Agree2Spec.
     match lookup f d with Some _ => false | None => true end.
 
   (** *** stats: the two callbacks of [run_stats] *)
-  (** the state of the log walk: the number of headings, the first dated heading ([None]: no dated
-      heading yet), the time of the last heading *)
+  (** the state of the log walk: the number of headings, the first dated heading ([None]: no
+      heading yet), the time of the last heading.  A heading that is not a date stops the walk with the
+      date error, as for every other command (fix F27; before, it was counted and its time was the zero time) *)
   Definition stats_log_cb (toks : list ltoken) (st : nat * option time * time) (ev : event NM)
     : (nat * option time * time) * bool * option cerr :=
     match ev with
@@ -181,7 +182,7 @@ Section Agree2Spec.
         | Some c =>
             let t := time_of_civil c in
             ((S cnt, match first with Some _ => first | None => Some t end, t), false, None)
-        | None => ((S cnt, first, zero_time), false, None)
+        | None => (st, true, Some EBadDate)
         end
     end.
 
@@ -202,7 +203,8 @@ Section Agree2Spec.
   Definition no_parse_error (evs : list (event NM)) : Prop :=
     forall e, ~ In (EErr e) evs.
 
-  (** the heading dates: [None] where the heading does not parse under the layout *)
+  (** the heading dates: [None] where the heading does not parse under the layout (since fix F27 [stats]
+      fails on such a log: the theorems about its report assume [all_dated], below) *)
   Definition heading_dates (toks : list ltoken) (ns : list (pnode NM)) : list (option (Z * Z * Z)) :=
     map (fun n => parse_date toks (header n)) ns.
 
